@@ -10,7 +10,7 @@ lambda^2 + lambda + 1 == 0 (mod r), 1 + v1_2*v2_1 == r, |x| matches the referenc
 from poly import Poly
 from symx import Interp, Leaf, Obj, Arr, Cell, Ptr, POISON, SymxError
 from groupdom import GroupDomain, Lin, pmod, residual_check, R_ORDER, TWO256, P as PP, z3_query, _smt_term
-from scen import ScenUnit, guarded
+from scen import ScenUnit, guarded, Abandon
 from bvspec import X_ABS, R as R_REF
 import units as U
 
@@ -114,3 +114,55 @@ def units():
              "floordiv_by_fr_p_value: returns SOME 128-bit value (no accuracy assumed)"]
     return [ScenUnit("decompose_lambda: (+-c0) + (+-c1)*lambda == k (mod r) for every k and every rounded quotient", P, gen_lambda, targets=["decompose_lambda"], contracts_used=lower),
             ScenUnit("PowersOfX::decompose: digits recombine to y (mod r), digits in range", P, gen_powers, targets=["PowersOfX::decompose", "div_exp_coeff"], contracts_used=lower)]
+
+
+# ---------------------------------------------------------------------------
+# C07 / C10: PowersOfX::random -- the accepted sample satisfies y = sum c_i |x|^i, every digit < |x|, y < r
+def gen_powers_random(tu):
+    def run(path):
+        dom = GroupDomain(consts=U.SHARED.get("consts"), drop_leaf=("PowersOfX",))
+        dom.prune = True
+        dom.tries = 0
+        I = Interp(tu, dom)
+        I.path = path
+        f = tu.func("PowersOfX::random")
+        this = I.new_object("PowersOfX")
+        y = I.new_object("BigInt<256>")
+        # each BigInt<64>::random draws a fresh 64-bit value; the rejection loops may retry (explored for the first rounds)
+        orig = dom.big_method
+
+        def big_method(I_, f_, this_, args_):
+            if f_.name == "random":
+                dom.tries += 1
+                if dom.tries > 5:
+                    raise Abandon()          # retry depth: every accepted sample is a fresh draw, deeper retries add nothing
+                this_.val = dom.fresh_scalar("draw", 0, 1 << 64)
+                return None
+            return orig(I_, f_, this_, args_)
+        dom.big_method = big_method
+        I.call(f, this, [y, Cell("rng")], force_body=True)
+        obs = [(w, s, m, None) for (w, s, m) in dom.side]
+        cs = [c.val for c in this.f["c"].items]
+        inputs = set(dom.ranges)
+        val = sum((PP(c) * X_ABS ** j for j, c in enumerate(cs)), Poly()) - PP(y.val)
+        st, model = residual_check(dom, Lin({"one": val}), inputs)
+        # exact integer equality, not only modulo r: the difference is a constant polynomial identity here
+        obs.append(("y == c0 + c1|x| + c2|x|^2 + c3|x|^3 (as integers)", "ok" if (val.is_zero()) else "fail", repr(val), None))
+        for j, c in enumerate(cs):
+            dom.side = []
+            dom.range_obligation(I, c, X_ABS, "accepted digit c%d < |x|" % j)
+            obs += [(w, s, m, None) for (w, s, m) in dom.side]
+        dom.side = []
+        dom.range_obligation(I, y.val, R_REF, "accepted y < r")
+        obs += [(w, s, m, None) for (w, s, m) in dom.side]
+        return obs
+    yield "accepted sample", guarded(run)
+
+
+_du0 = units
+
+
+def units():
+    return _du0() + [ScenUnit("PowersOfX::random: accepted sample is consistent and in range", ["C07", "C10"], gen_powers_random, targets=["PowersOfX::random"], max_paths=2000,
+                              contracts_used=["BigInt::multiply exact, add exact (C02)", "BigInt<64>::random: 8 arbitrary bytes", "BigInt::compare"],
+                              assumes=["uniformity: digits <-> [0,r) is a bijection on the accepted set (one line, paper)", "termination of the rejection loops is not claimed"])]
